@@ -204,6 +204,39 @@ func init() {
 		}
 		return w.ret(r, err)
 	}
+	// lin:<matmul|matvec|outer>:<a>:<b>:<safe|reuse.r|incr.r>   inner:<a>:<b>   trace:<a>
+	progOps["lin"] = func(w *world, f []string) string {
+		a, b := w.ts[atoi(f[2])], w.ts[atoi(f[3])]
+		o := w.opts(f[4], false)
+		var r *tensor.Dense
+		var err error
+		switch f[1] {
+		case "matmul":
+			r, err = a.MatMul(b, o...)
+		case "matvec":
+			r, err = a.MatVecMul(b, o...)
+		case "outer":
+			r, err = a.Outer(b, o...)
+		}
+		if err != nil {
+			return "err"
+		}
+		return w.newOrSame(r)
+	}
+	progOps["inner"] = func(w *world, f []string) string {
+		v, err := w.ts[atoi(f[1])].Inner(w.ts[atoi(f[2])])
+		if err != nil {
+			return "err"
+		}
+		return fmt.Sprintf("val:%d", valTok(v))
+	}
+	progOps["trace"] = func(w *world, f []string) string {
+		v, err := w.ts[atoi(f[1])].Trace()
+		if err != nil {
+			return "err"
+		}
+		return fmt.Sprintf("val:%d", valTok(v))
+	}
 	// stack:<t>:<axis>:<others>  concat:<t>:<axis>:<others>  repeat:<t>:<axis>:<reps>
 	progOps["stack"] = func(w *world, f []string) string {
 		var os []tensor.Tensor
